@@ -154,9 +154,9 @@ func Check(c Case) ([]evid.Violation, info) {
 			if len(owners[s]) >= 2 {
 				in.twoOwners = true
 			}
-			for probe := 0; probe < 12; probe++ {
+			for probe := 0; probe < 16; probe++ {
 				var res drive.Result
-				kind := probe % 3
+				kind := probe % 4
 				switch kind {
 				case 0:
 					res = drive.Serve(mux, drive.Request("GET", "/fx/"+strings.ToLower(s), "", nil, nil, 0))
@@ -164,6 +164,10 @@ func Check(c Case) ([]evid.Violation, info) {
 					hdr := http.Header{}
 					hdr.Set("Content-Type", "application/json")
 					res = drive.Serve(mux, drive.Request("POST", "/un."+s+"/Ping", "", hdr, bytes.NewReader([]byte("{}")), 2))
+				case 3:
+					// a route with a path variable and a query parameter: the picked
+					// handler must cope with parameters resolved for another owner
+					res = drive.Serve(mux, drive.Request("GET", "/fx/"+strings.ToLower(s)+"/QUJD", "f_int32=5", nil, nil, 0))
 				case 2:
 					res = drive.Serve(mux, drive.GRPCRequest("/un."+s+"/Ping", nil, bytes.NewReader(drive.GRPCFrame(nil, false)), "application/grpc"))
 				}
